@@ -198,6 +198,10 @@ func constInt(v ssa.Value) (int64, bool) {
 		case *ssa.ChangeType:
 			v = t.X
 			continue
+		case *ssa.MakeInterface:
+			// interface holding a constant (state values stored as interface{})
+			v = t.X
+			continue
 		}
 		break
 	}
